@@ -217,14 +217,17 @@ func init() {
 						}
 					}
 				}
+				for _, kind := range []int{0, 2, 4, 8, 9} {
+					js = append(js, sym.Job{Harness: "VH_C14_reply_ownership", Params: map[string]int{"kind": kind, "mode": mode, "q": 2}})
+				}
 			}
 			return js
 		},
 		Bounds: map[string]string{
-			"quick":    "requests FC3 and FC6 x 3 clients x all 8 fault kinds (prefix case-split) x {no hooks, hook panicking in BeforeWrite / AfterEachRead / BeforeParse}; Connect, Do, Close each once, sequentially",
+			"quick":    "requests FC3 and FC6 x 3 clients x all 8 fault kinds (prefix case-split) x {no hooks, hook panicking in BeforeWrite / AfterEachRead / BeforeParse}; Connect, Do, Close each once, sequentially; plus two consecutive exchanges (FC1, FC3, FC5, FC17, FC23) on one client: the first caller's response is unchanged by the second exchange",
 			"thorough": "all 10 request kinds; panicking hooks combined with every fault",
 		},
 		Outside:   []string{"goroutine interleavings are NOT a variable of this check: it decides the sequential lock discipline (lock held at every transport operation, released on every path, never taken twice) from which mutual exclusion of whole exchanges follows by the semantics of sync.RWMutex; data races on fields, fairness and the go test -race clause are outside"},
-		MinCovers: []string{"do-returned"},
+		MinCovers: []string{"do-returned", "two-exchanges"},
 	})
 }
